@@ -78,7 +78,8 @@ def gen_cases(ctx):
               # (dummy operations of duration 0 are valid; small ranges make them frequent)
               "duration_range": [0, rng.choice([2, 3])] if style == "classic" and i % 8 == 1
               else [1, rng.choice([5, 20])], "allow_recirculation": style == "recirc",
-              "machines_per_operation": [1, 2] if style == "flexible" else 1,
+              # (the upper bound of machines per operation may exceed the smallest machine count)
+              "machines_per_operation": ([1, 2] if i % 8 != 3 else [1, lo_m + 1]) if style == "flexible" else 1,
               "seed": rng.randrange(10**6)}
         yield {"kind": "multi", "instance": {"cls": "generated-" + style}, "generator": gp,
                "style": style, "builder": BUILDERS[(i // 4) % 4],
@@ -347,6 +348,16 @@ def run_multi(ctx, case):
                                graph_updater_config=up, reward_function_config=rw,
                                use_padding=case.get("padding", True), **kw)
     ctx.count("multi_env_configs")
+    if case["seed"] % 9 == 2 and case["style"] == "classic":
+        # the owner of the generator widens its ranges and builds a second environment from it: the
+        # declared spaces of that environment are those of the generator as it is now
+        g.num_jobs_range = (g.num_jobs_range[0], g.num_jobs_range[1] + 2)
+        gp["num_jobs"] = g.num_jobs_range
+        case = dict(case, generator=dict(case["generator"], num_jobs=list(g.num_jobs_range)))
+        env = MultiJobShopGraphEnv(g, feats, graph_initializer=builders()[case["builder"]],
+                                   graph_updater_config=up, reward_function_config=rw,
+                                   use_padding=case.get("padding", True), **kw)
+        ctx.count("second_multi_env_from_a_generator_whose_ranges_were_widened")
 
     def matrices(instance):
         return {"durations": [[op.duration for op in job] for job in instance.jobs],
